@@ -489,8 +489,9 @@ def run_check(suite, pid, tier, seed):
 
     # 6. verdict
     rc = 0
+    final_lines = []
     if new_fail:
-        k = shrink_pick(suite, built, cases, impl, model, new_fail, tier)
+        k = shrink_pick(suite, built, cases, impl, model, new_fail, tier, known)
         c, r, m = k
         payload = {"property": pid, "suite": pid, "case": c.line, "impl": r, "model": m[0],
                    "oracle": {"impl": m[1], "model": m[2]}, "class": c.cls,
@@ -500,7 +501,7 @@ def run_check(suite, pid, tier, seed):
         print("failing case: %s" % c.line[:500])
         print("  impl : %s" % r[:500])
         print("  model: %s" % m[0][:500])
-        print("VIOLATION property=%s replay=%s" % (pid, rp))
+        final_lines.append("VIOLATION property=%s replay=%s" % (pid, rp))
         ev["violations"] = len(new_fail)
         rc = 1
     elif (not proofs["ok"]) or disagree:
@@ -534,7 +535,7 @@ def run_check(suite, pid, tier, seed):
                        "theorem_or_correspondence": "; ".join(what), "seed": seed, "tier": tier}
             rp = write_replay(pid, payload)
             print("failing case (extended search): %s" % c.line[:500])
-            print("VIOLATION property=%s replay=%s" % (pid, rp))
+            final_lines.append("VIOLATION property=%s replay=%s" % (pid, rp))
         else:
             first = disagree[0] if disagree else None
             payload = {"property": pid, "suite": pid, "theorem_or_correspondence": "; ".join(what),
@@ -550,7 +551,7 @@ def run_check(suite, pid, tier, seed):
                 print("first disagreement: %s\n  impl : %s\n  model: %s" % (cases[first].line[:400], impl[first][:400], model[first][0][:400]))
             if not proofs["ok"]:
                 print(proofs["log"][-1500:])
-            print("VIOLATION property=%s replay=%s no-failing-input-found" % (pid, rp))
+            final_lines.append("VIOLATION property=%s replay=%s no-failing-input-found" % (pid, rp))
         ev["violations"] = 1
         rc = 1
 
@@ -565,6 +566,8 @@ def run_check(suite, pid, tier, seed):
     cov["known_findings_reproduced"] = rep_ids
     ev["wall_s"] = round(time.time() - t0, 1)
     write_evidence(pid, ev)
+    for l in final_lines:
+        print(l)
     if rc == 0:
         print("OK property=%s tier=%s cases=%d nontrivial=%d theorems=%d/%d disagreements=0 wall=%.1fs" %
               (pid, tier, len(cases), nontriv, proofs["discharged"], proofs["obligations"], ev["wall_s"]))
@@ -583,7 +586,7 @@ def is_known(suite, known, c, r, m):
     return False
 
 
-def shrink_pick(suite, built, cases, impl, model, new_fail, tier):
+def shrink_pick(suite, built, cases, impl, model, new_fail, tier, known=()):
     """Choose the smallest failing case; let the suite shrink it further if it knows how."""
     k = min(new_fail, key=lambda j: len(cases[j].line))
     best = (cases[k], impl[k], model[k])
@@ -596,7 +599,7 @@ def shrink_pick(suite, built, cases, impl, model, new_fail, tier):
                 cimpl, cmodel = evaluate(suite, built, cands, tier)
                 nxt = None
                 for c, r, m in zip(cands, cimpl, cmodel):
-                    if not m[1] and len(c.line) < len(best[0].line):
+                    if not m[1] and len(c.line) < len(best[0].line) and not is_known(suite, known, c, r, m):
                         nxt = (c, r, m)
                         break
                 if nxt is None:
